@@ -214,3 +214,105 @@ def normalise(tree: ast.AST, reference: dict[str, list[list[str]]]) -> int:
                 n.id = mapping[n.id]
         renamed += len(mapping)
     return renamed
+
+
+# ---------------------------------------------------------------------------------------------------
+# Private function / method names
+#
+# A private helper (`_update_cache`, `_sync_with_backend`) may be renamed by a maintainer without any
+# change of behaviour.  The rules anchor such helpers by name - the property anchors do too - so a pure
+# rename is undone before the rules run: a private function that is *new* (not in the reference table)
+# and whose body - with local names and all private-function names blanked - equals the body of a
+# reference function that is *missing* from the same class / module gets the reference name back,
+# together with every reference to it in the package.  Only unambiguous cases are renamed.
+
+def _is_private(name: str) -> bool:
+    return name.startswith("_") and not (name.startswith("__") and name.endswith("__"))
+
+
+class _BlankPrivate(ast.NodeTransformer):
+    """blank every private-looking identifier (`_x`, not dunder): private helpers of this and other modules
+    may have been renamed too, and private fields add nothing to telling two helpers of one class apart"""
+
+    def visit_Name(self, node):
+        if _is_private(node.id):
+            return ast.copy_location(ast.Name(id="_F", ctx=node.ctx), node)
+        return node
+
+    def visit_Attribute(self, node):
+        self.generic_visit(node)
+        if _is_private(node.attr):
+            node.attr = "_F"
+        return node
+
+    def visit_FunctionDef(self, node):
+        self.generic_visit(node)
+        if _is_private(node.name):
+            node.name = "_F"
+        return node
+
+    visit_AsyncFunctionDef = visit_FunctionDef
+
+
+def _body_fingerprint(fn, private: set[str]) -> str:
+    import hashlib
+    from .loader import canonicalise
+    t = copy.deepcopy(fn)
+    t.name = "_F"
+    if t.body and isinstance(t.body[0], ast.Expr) and isinstance(t.body[0].value, ast.Constant) and isinstance(t.body[0].value.value, str):
+        t.body = t.body[1:] or [ast.Pass()]
+    names = local_names(t)
+    t = _Blank(names).visit(t)
+    t = _BlankPrivate().visit(t)
+    mod = canonicalise(ast.Module(body=[t], type_ignores=[]))
+    return hashlib.sha256(ast.unparse(mod).encode()).hexdigest()[:16]
+
+
+def private_function_table(tree: ast.AST, extra_private: set[str] = frozenset()) -> dict[str, str]:
+    """qualname -> body fingerprint for the private functions / methods of a module."""
+    funcs = list(iter_functions(tree))
+    private = {q.split(".")[-1] for q, _ in funcs if _is_private(q.split(".")[-1])} | set(extra_private)
+    out = {}
+    for q, fn in funcs:
+        if _is_private(fn.name) and q not in out:
+            out[q] = _body_fingerprint(fn, private)
+    return out
+
+
+def private_renames(tree: ast.AST, ref_funcs: dict[str, str]) -> list[tuple[str, str]]:
+    """[(new simple name, reference simple name)] - one entry per renamed private function of this module."""
+    cur = private_function_table(tree)
+    missing = {q: fp for q, fp in ref_funcs.items() if q not in cur}
+    new = {q: fp for q, fp in cur.items() if q not in ref_funcs}
+    out = []
+    used = set()
+    for q, fp in sorted(new.items()):
+        scope = q.rsplit(".", 1)[0] if "." in q else ""
+        cands = [m for m, mfp in missing.items() if mfp == fp and (m.rsplit(".", 1)[0] if "." in m else "") == scope and m not in used]
+        if len(cands) == 1:
+            used.add(cands[0])
+            out.append((q.split(".")[-1], cands[0].split(".")[-1]))
+    return out
+
+
+def apply_name_renames(tree: ast.AST, mapping: dict[str, str]) -> int:
+    n = 0
+    for node in ast.walk(tree):
+        if isinstance(node, (ast.FunctionDef, ast.AsyncFunctionDef)) and node.name in mapping:
+            node.name = mapping[node.name]
+            n += 1
+        elif isinstance(node, ast.Attribute) and node.attr in mapping:
+            node.attr = mapping[node.attr]
+            n += 1
+        elif isinstance(node, ast.Name) and node.id in mapping:
+            node.id = mapping[node.id]
+            n += 1
+        elif isinstance(node, ast.ImportFrom):
+            for a in node.names:
+                if a.name in mapping:
+                    if a.asname is None:
+                        a.name = mapping[a.name]
+                    else:
+                        a.name = mapping[a.name]
+                    n += 1
+    return n
